@@ -196,25 +196,36 @@ def r3_delims(rep, facts, a):
 
 
 def r3b_digit(rep, facts):
-    R = rep.rule('C12/R3b', 'the standalone parser\'s digit helper accepts exactly the ASCII digits the grammar\'s DIGIT class accepts', floor=1)
-    d = 'toml_datetime::datetime::digit'
-    b = facts.body(d)
-    guards = []
-    for n in walk(b['body']):
-        if n.get('k') == 'match':
-            for arm in n['arms']:
-                if 'guard' in arm and any((x.get('path') or '').endswith('Result::Ok') for x in walk(arm['body']) if x.get('k') == 'path'):
-                    guards += [x.get('callee') or x.get('name') for x in walk(arm['guard']) if x.get('k') == 'mcall']
-                if 'guard' not in arm and any((x.get('path') or '').endswith('Result::Ok') for x in walk(arm['body']) if x.get('k') == 'path'):
-                    # digit patterns '0'..='9'
-                    pr = [x for x in walk(arm['pat']) if x.get('k') == 'p_range']
-                    if pr and all(x.get('lo', {}).get('v') == 48 and x.get('hi', {}).get('v') == 57 and x.get('incl') for x in pr):
-                        guards.append('0..=9')
-                    else:
-                        guards.append('unguarded Ok arm')
-    ok = bool(guards) and all(g == '0..=9' or (g or '').endswith('is_ascii_digit') for g in guards)
-    rep.check(R, d, ok, f'Ok only under {guards}', f'`digit` returns Ok under {guards}: characters outside 0-9 (e.g. other Unicode digits) are taken as digits, '
-              f'which the grammar refuses and whose `as u8 - b\'0\'` arithmetic is out of range', facts.loc(b))
+    R = rep.rule('C12/R3b', 'the standalone parser takes exactly the ASCII digits the grammar\'s DIGIT class takes: every digit position of a full offset date-time with '
+                 'fraction is tried with digits of other scripts, superscripts, fullwidth forms and the neighbours of 0-9 in ASCII; each such text is refused, '
+                 'without a panic (the `as u8 - b\'0\'` arithmetic behind a digit is only in range for 0-9).  Decided on the evaluated parser', floor=1)
+    from .den import EvalPanic
+    b, run = standalone_eval(facts)
+    base = '1979-05-27T07:32:00.125+01:30'
+    odd = ['\u0663', '\u0969', '\uff13', '\u00b3', '\u2463', '/', ':', 'a']       # Arabic-Indic 3, Devanagari 3, fullwidth 3, superscript 3, circled 4, '/', ':', 'a'
+    bad = []
+    n = 0
+    try:
+        for i, ch in enumerate(base):
+            if not ch.isdigit():
+                continue
+            for o in odd:
+                if o == ':' and False:
+                    continue
+                text = base[:i] + o + base[i + 1:]
+                n += 1
+                try:
+                    r = run(text)
+                except EvalPanic as ex:
+                    bad.append(f'{text!r} panics: {ex}')
+                    continue
+                if r is not None:
+                    bad.append(f'{text!r} is accepted as {r}')
+    except Unanalysable as e:
+        rep.incomplete(R, 'standalone|digits', f'cannot evaluate the standalone parser: {e}', facts.loc(b))
+        return
+    rep.check(R, 'standalone|digits', not bad, f'{n} texts with a non-ASCII or non-digit character in a digit position are refused',
+              f'the standalone parser takes characters outside 0-9 as digits: {"; ".join(bad[:3])} — the grammar refuses them and the digit arithmetic is out of range', facts.loc(b))
 
 
 def spec_datetime(text):
